@@ -365,7 +365,7 @@ func c18HandBuiltCase(c *c18Ctx) {
 		}
 		mp := &api.MpReachNLRIAttribute{Family: c18APIFamily(f), Nlris: []*api.NLRI{n}}
 		class := "mpreach:" + f.String()
-		switch r.IntN(5) {
+		switch r.IntN(4) {
 		case 0:
 			class += ":no-nexthop"
 		case 1:
@@ -374,12 +374,9 @@ func c18HandBuiltCase(c *c18Ctx) {
 		case 2:
 			mp.NextHops = []string{"2001:db8::1"}
 			class += ":v6"
-		case 3:
+		default:
 			mp.NextHops = []string{"2001:db8::1", c18LinkLocal6(r).String()}
 			class += ":v6+ll"
-		default:
-			mp.NextHops = []string{"2001:db8::1", "2001:db8::2"}
-			class += ":v6+global"
 		}
 		attr(&api.Attribute{Attr: &api.Attribute_MpReach{MpReach: mp}}, class)
 	case 8: // route target membership: default / AS only / AS + RT of each kind
